@@ -33,7 +33,7 @@ fn main() {
             bitwise_float_is_none, mixed_promotes_to_float, plus_float, subtract_float, multiply_float, divide_float,
             integer_divide_float, unary_float, eq_reflexive_symmetric, eq_transitive, eq_agrees_with_cmp, eq_is_numeric,
             cmp_total_on_non_nan, cmp_antisymmetric, cmp_transitive, cmp_is_numeric, operators_are_readings_of_cmp, usize_from_no_panic,
-            power_no_panic_int, zero_divisor_is_none, results_are_finite, integer_divide_float_out_of_range, integer_divide_float_quarters_16bit, integer_divide_float_quarters_8bit);
+            power_no_panic_int, power_small_exponent_int, zero_divisor_is_none, results_are_finite, integer_divide_float_out_of_range, integer_divide_float_quarters_16bit, integer_divide_float_quarters_8bit);
     }));
     match res {
         Err(p) => {
